@@ -56,6 +56,15 @@ def add_fs_obligations(ck, tu, X, pid):
             elif "rename" in names:
                 # a failing step that has already published the previous file: only the calls before the rename matter
                 c_fs.check_status_sites(s, rv, struct, "write_samples_to_file/%s" % sc, "publishes the previous file", upto=names.index("rename"))
+            if failed:
+                # close renames whatever lies under the recorded tmp name: a creation that failed (e.g. a stale tmp file of a killed
+                # session is in the way) leaves a recorded name that is not this writer's file, so the writer must be marked failed
+                # (close then removes instead of publishing)
+                cr = [e for e in s.trace if e.name == "H5Fcreate" and e.ret is not None and not is_conc(e.ret) and c_fs.must(s.pc, Z(e.ret) < 0)]
+                if cr:
+                    struct("fs.failed_create_never_published", c_fs.must(s.pc, Z(wfin["has_failure"]) != 0),
+                           "after a failed H5Fcreate the record names a tmp file this writer did not create; has_failure must be set so that close does not publish it",
+                           {"site": "H5Fcreate@%s" % cr[-1].func})
             if failed and isinstance(s.ghost.get("index"), dict):
                 # accepted call that failed afterwards: either a refusal that leaves the writer usable, or has_failure is set
                 refused = [e for e in s.trace if e.name == "access" and isinstance(e.args[0], SStr) and not c_fs.is_tmp(e.args[0])
